@@ -2931,7 +2931,7 @@ def eye(N: int, M: int | None = None, k: int = 0,  # noqa: N803
         raise ValueError(f"k must be int, got {type(k)}.")
 
     return IndexLambda(expr=prim.If(parse(f"(_1 - _0) == {k}"), 1, 0),
-                       shape=(N, M), dtype=np.dtype(dtype),
+                       shape=normalize_shape((N, M)), dtype=np.dtype(dtype),
                        bindings=constantdict({}),
                        tags=_get_default_tags(),
                        non_equality_tags=_get_created_at_tag(),
